@@ -451,8 +451,10 @@ PROP_KINDS = {
 
 
 _SRC_CACHE = {}
-def calls(f, g):
-    """does the source text of function f (original tree) mention a call of g's name?"""
+def calls(f, g, all_fns=None):
+    """does the source text of function f (original tree) call g?  Matched on the qualified name `Type::name(`, on `Self::name(` /
+    `self.name(` / `.name(` when both are methods of the same type, and on a bare `.name(` only when no other function under
+    contract has that name (`from_slice`, `new`, `len` ... are far too common to be matched unqualified)."""
     key = (f['file'], f['orig_line'], f.get('orig_end_line'))
     if key not in _SRC_CACHE:
         try:
@@ -460,8 +462,18 @@ def calls(f, g):
             _SRC_CACHE[key] = '\n'.join(lines[f['orig_line'] - 1:(f.get('orig_end_line') or f['orig_line'])])
         except Exception:
             _SRC_CACHE[key] = ''
-    base = g['fn'].split('::')[-1]
-    return re.search(r'\b%s\s*\(' % re.escape(base), _SRC_CACHE[key]) is not None
+    src = _SRC_CACHE[key]
+    def split(path):
+        m = re.match(r'<.+?\s+for\s+(\w+)>::(\w+)$', path)
+        if m: return m.group(1), m.group(2)
+        parts = path.split('::')
+        return (parts[-2] if len(parts) > 1 else ''), parts[-1]
+    gt, gn = split(g['fn']); ft, _ = split(f['fn'])
+    if gt and re.search(r'\b%s\s*::\s*%s\s*\(' % (re.escape(gt), re.escape(gn)), src): return True
+    if gt and gt == ft and re.search(r'(\bSelf\s*::\s*|\.\s*)%s\s*\(' % re.escape(gn), src): return True
+    if not gt and re.search(r'(?<![\w:.])%s\s*\(' % re.escape(gn), src): return True     # free function
+    if all_fns is not None and sum(1 for x in all_fns if split(x['fn'])[1] == gn) == 1 and re.search(r'\.\s*%s\s*\(' % re.escape(gn), src): return True
+    return False
 
 
 def decide(prop, tier, seed):
@@ -548,7 +560,7 @@ def decide(prop, tier, seed):
             # a caller is checked against its callees' contracts, not their bodies: when a callee under contract failed only on
             # scaffolding (e.g. the contract of a private helper no longer describes the regrouped code), this caller's
             # failures were derived from a stale contract and decide nothing (rule 3 applies to them as well)
-            stale = [g['fn'] for g in v['fns'].values() if g is not f and calls(f, g)
+            stale = [g['fn'] for g in v['fns'].values() if g is not f and calls(f, g, list(v['fns'].values()))
                      and (g.get('demoted') or (g['status'] == 'failed' and g['diags'] and all(x['scaffolding'] for x in g['diags'])))]
             if stale:
                 for d in f['diags']: d['scaffolding'] = True; d['stale_callee'] = stale
